@@ -48,6 +48,14 @@ def np_std(x):
     return np.std(x)
 
 
+def np_min(x):
+    return np.min(x)
+
+
+def np_max(x):
+    return np.max(x)
+
+
 REG.declare_class(T + "Center", {"params_set": "bool", "mean": "real"})
 REG.declare_class(T + "Scale", {"params_set": "bool", "mean": "real", "std": "real"})
 WO = ["C06", "C07", "C14"]
@@ -67,13 +75,43 @@ REG.contract(T + "Scale.__call__", params={"x": "arr1"}, returns="arr1", tags=WO
 
 # ---- BSpline: parameters are fixed by the first call; number of basis columns
 REG.declare_class(T + "BSpline", {"params_set": "bool", "_intercept": "bool", "_degree": "int", "_knots": "arr1"})
-REG.contract(T + "BSpline._initialize", params={"x": "arr1", "df": "any", "knots": "any", "degree": "any", "intercept": "any",
-                                                 "lower_bound": "any", "upper_bound": "any"},
-             modifies=["self.params_set", "self._intercept", "self._degree", "self._knots"], tags=WO,
-             raises={"ValueError": None},
-             ensures=["self.params_set", "self._knots.shape[0] - (self._degree + 1) >= 1"],
-             note="ASSUMED: the body (percentiles, concatenate, sort) is outside the verified subset; only its frame and "
-                  "'params_set afterwards' are used by BSpline.__call__")
+def quantile_knots(x, n):
+    """the n inner knots placed at equally spaced quantiles of the data (specification helper; executable)"""
+    return np.percentile(x, 100 * np.asarray(np.linspace(0, 1, n + 2)[1:-1]))
+
+
+def _quantile_knots(I, a, kw, node):
+    from vf.pyvc.values import SSlice
+    x, n = a
+    lin = arrays.np_linspace(I, [0, 1, I.binop("+", n, 2)], {}, node)
+    q = lin.getitem(I, SSlice(1, -1), node).binop(I, "*", 100, True)
+    return arrays.np_percentile(I, [x, q], {}, node)
+
+
+REG.externals[f"{__name__}.quantile_knots"] = _quantile_knots
+BS_PARAMS = {"x": "arr1", "df": "int?", "knots": "arr1?", "degree": "int", "intercept": "bool", "lower_bound": "real?", "upper_bound": "real?"}
+NIN = "(df - (degree + 1) + (0 if intercept else 1))"                  # inner knots implied by df
+LB = "(np_min(x) if lower_bound is None else lower_bound)"
+UB = "(np_max(x) if upper_bound is None else upper_bound)"
+INNER = f"(knots if knots is not None else quantile_knots(x, {NIN}))"
+REFUSED = (f"degree < 0 or (df is None and knots is None) or (df is not None and {NIN} < 0) or "
+           f"(df is not None and knots is not None and len(knots) != {NIN}) or {LB} > {UB} or "
+           f"exists(0, len({INNER}), lambda k: {INNER}[k] < {LB} or {INNER}[k] > {UB})")
+REG.contract(T + "BSpline._initialize", params=BS_PARAMS,
+             requires=["x.shape[0] >= 1"],
+             modifies=["self.params_set", "self._intercept", "self._degree", "self._knots"], tags=WO + ["C14"],
+             # C14 "invalid df/degree/knots/bounds are refused": exactly these parameter combinations, and nothing is stored then
+             raises={"ValueError": REFUSED},
+             ensures=["self.params_set", "self._degree == degree", "self._intercept == intercept",
+                      # order boundary knots at each end + the inner knots
+                      f"self._knots.shape[0] == 2 * (degree + 1) + len({INNER})",
+                      # C14 "as many columns as df (or knots + degree, plus one with intercept)"
+                      "implies(df is not None, self._knots.shape[0] - (degree + 1) - (0 if intercept else 1) == df)",
+                      "implies(df is None, self._knots.shape[0] - (degree + 1) - (0 if intercept else 1) == "
+                      "len(knots) + degree + (1 if intercept else 0))",
+                      "self._knots.shape[0] - (self._degree + 1) >= 1",
+                      # the knot vector is ascending
+                      "forall(0, self._knots.shape[0] - 1, lambda k: self._knots[k] <= self._knots[k + 1])"])
 REG.contract(T + "BSpline.eval", params={"x": "arr1"}, returns="arr2", tags=["C14", "C06"],
              requires=["self._knots.shape[0] - (self._degree + 1) >= 1"],
              ensures=["result.shape[0] == x.shape[0]",
@@ -81,14 +119,21 @@ REG.contract(T + "BSpline.eval", params={"x": "arr1"}, returns="arr2", tags=["C1
              loops={1: Loop(invariant=["0 <= _i1", "basis.shape[0] == x.shape[0]",
                                        "basis.shape[1] == self._knots.shape[0] - (self._degree + 1)"],
                             havoc={"basis": "arr2"})})
-REG.contract(T + "BSpline.__call__", params={"x": "arr1", "df": "any", "knots": "any", "degree": "any", "intercept": "any",
-                                              "lower_bound": "any", "upper_bound": "any"}, returns="arr2", tags=WO,
-             requires=["implies(self.params_set, self._knots.shape[0] - (self._degree + 1) >= 1)"],
+REG.contract(T + "BSpline.__call__", params=BS_PARAMS, returns="arr2", tags=WO + ["C14"],
+             requires=["implies(self.params_set, self._knots.shape[0] - (self._degree + 1) >= 1)", "x.shape[0] >= 1"],
              modifies=["self.params_set", "self._intercept", "self._degree", "self._knots"],
              raises={"ValueError": None},
              ensures=["self.params_set",
                       "implies(old(self.params_set), self._knots == old(self._knots) and self._degree == old(self._degree) "
-                      "and self._intercept == old(self._intercept))"])
+                      "and self._intercept == old(self._intercept))",
+                      "result.shape[0] == x.shape[0]",
+                      # C14: on the first (training) call the basis has df columns, or knots + degree (+ 1 with intercept)
+                      "implies(not old(self.params_set) and df is not None, result.shape[1] == df)",
+                      "implies(not old(self.params_set) and df is None and knots is not None, "
+                      "result.shape[1] == (len(knots) if knots is not None else 0) + degree + (1 if intercept else 0))",
+                      # later calls: the column count fixed at training, whatever is passed now
+                      "implies(old(self.params_set), result.shape[1] == old(self._knots.shape[0]) - (old(self._degree) + 1) - "
+                      "(0 if old(self._intercept) else 1))"])
 
 
 def _splev(I, a, kw, node):
@@ -105,8 +150,9 @@ REG.contract(T + "Polynomial.__init__", tags=WO, modifies=["self.params_set", "s
              ensures=["is_fresh(self.alpha)", "is_fresh(self.norms2)", "self.alpha == {}", "self.norms2 == {}",
                       "not self.params_set"])
 
-FUNCTIONS = [T + f for f in ("Center.__call__", "Scale.__call__", "BSpline.eval", "BSpline.__call__", "Polynomial.__init__")]
-ASSUMED = [T + "BSpline._initialize"]
+FUNCTIONS = [T + f for f in ("Center.__call__", "Scale.__call__", "BSpline.eval", "BSpline.__call__", "BSpline._initialize",
+                             "Polynomial.__init__")]
+ASSUMED = []
 
 # ---- binary / Proportion (C16) --------------------------------------------------------------
 REG.sorted_model = pandas_m.sorted_unique
@@ -188,4 +234,4 @@ TABLES = [
 ]
 
 
-ASSUMPTIONS = ['np.mean / np.std / np.min / np.max are uninterpreted functions of the data vector (floats as reals)', "BSpline._initialize is ASSUMED (not verified): only its frame and 'params_set afterwards' are used", 'scipy.interpolate.splev returns a fresh vector of the length of x (values unconstrained)', "Series: x.unique().tolist() / sorted() modelled through an uninterpreted order 'le' on values"]
+ASSUMPTIONS = ['np.mean / np.std / np.min / np.max are uninterpreted functions of the data vector (floats as reals)', "BSpline parameters are typed (degree: int, df: int or None, knots: vector or None, bounds: real or None): the refusal of non-integer degree / df is not covered", "np.percentile(x, q) for 0 <= q <= 100 lies between min(x) and max(x); np.linspace closed form; ndarray.sort() = ascending rearrangement (assumed, validated by ext-valid)", 'scipy.interpolate.splev returns a fresh vector of the length of x (values unconstrained)', "Series: x.unique().tolist() / sorted() modelled through an uninterpreted order 'le' on values"]
